@@ -1,1 +1,88 @@
-(* stub *)
+(* C12_lists_R.v — the list models instantiated with real quaternions and the REGENERATED slerp:
+   rows are 4-tuples of reals, negation is component-wise, the jump test is |b - a| > 1 (as the code computes it:
+   the Euclidean norm of the row difference), and the interpolation is C12_slerp_R of the two rows at weight k/n. *)
+From Coq Require Import Reals List Lra Psatz Arith Lia.
+From AhrsLib Require Import Base Rot.
+From AhrsModel Require Import C12_lists.
+From AhrsGen Require Import C12gen_R.
+From AhrsProps Require Import C12_math C12_gen C12_lists_thm.
+Import ListNotations.
+Open Scope R_scope.
+
+Definition quat : Type := (R * R * R * R)%type.
+Definition ql (q : quat) : list R := let '(w, x, y, z) := q in [w; x; y; z].
+Definition lq (l : list R) : quat := (e l 0, e l 1, e l 2, e l 3).
+Definition negq (q : quat) : quat := let '(w, x, y, z) := q in (- w, - x, - y, - z).
+Definition dist2 (a b : quat) : R :=
+  let '(a0, a1, a2, a3) := a in let '(b0, b1, b2, b3) := b in
+  (b0 - a0) * (b0 - a0) + (b1 - a1) * (b1 - a1) + (b2 - a2) * (b2 - a2) + (b3 - a3) * (b3 - a3).
+Definition jumpq (a b : quat) : bool := if Rlt_dec 1 (sqrt (dist2 a b)) then true else false.
+Definition unitq4 (q : quat) : Prop := let '(w, x, y, z) := q in unit4 w x y z.
+(* slerp(a, b, [k/n]) through the regenerated function *)
+Definition interpq (a b : quat) (k n : nat) : quat :=
+  let '(a0, a1, a2, a3) := a in let '(b0, b1, b2, b3) := b in
+  match C12_slerp_R a0 a1 a2 a3 b0 b1 b2 b3 (INR k / INR n) with Val r => lq r | Raise _ => a end.
+
+Lemma negq_invol a : negq (negq a) = a.
+Proof. destruct a as [[[w x] y] z]. unfold negq. repeat f_equal; ring. Qed.
+Lemma jumpq_neg_both a b : jumpq (negq a) (negq b) = jumpq a b.
+Proof.
+  destruct a as [[[a0 a1] a2] a3], b as [[[b0 b1] b2] b3]. unfold jumpq, negq, dist2.
+  replace ((- b0 - - a0) * (- b0 - - a0) + (- b1 - - a1) * (- b1 - - a1) + (- b2 - - a2) * (- b2 - - a2) + (- b3 - - a3) * (- b3 - - a3))
+    with ((b0 - a0) * (b0 - a0) + (b1 - a1) * (b1 - a1) + (b2 - a2) * (b2 - a2) + (b3 - a3) * (b3 - a3)) by ring.
+  reflexivity.
+Qed.
+Lemma unitq4_neg a : unitq4 a -> unitq4 (negq a).
+Proof. destruct a as [[[w x] y] z]. unfold unitq4, negq, unit4. intros H. rewrite <- H. ring. Qed.
+
+(* for unit rows |b - a|^2 = 2 - 2 a.b: the jump test fires iff a.b < 1/2, and a jumping pair is close after one flip
+   as soon as a.b <= -1/2, i.e. the two rows are within 60 degrees (on S^3) of being antipodal *)
+Lemma dist2_unit a b : unitq4 a -> unitq4 b -> dist2 a b = 2 - 2 * qdot (ql a) (ql b).
+Proof.
+  destruct a as [[[a0 a1] a2] a3], b as [[[b0 b1] b2] b3]. unfold unitq4, unit4, dist2, ql. unfold_q. intros Ha Hb.
+  replace ((b0 - a0) * (b0 - a0) + (b1 - a1) * (b1 - a1) + (b2 - a2) * (b2 - a2) + (b3 - a3) * (b3 - a3))
+    with ((a0*a0 + a1*a1 + a2*a2 + a3*a3) + (b0*b0 + b1*b1 + b2*b2 + b3*b3) - 2 * (a0*b0 + a1*b1 + a2*b2 + a3*b3)) by ring.
+  rewrite Ha, Hb. ring.
+Qed.
+Lemma jumpq_iff a b : jumpq a b = true <-> 1 < dist2 a b.
+Proof.
+  unfold jumpq. destruct (Rlt_dec 1 (sqrt (dist2 a b))) as [H|H]; split; intros G; try reflexivity; try discriminate.
+  - destruct (Rle_dec (dist2 a b) 1) as [L|L]; [|lra]. exfalso.
+    assert (sqrt (dist2 a b) <= sqrt 1) by (apply sqrt_le_1_alt; exact L). rewrite sqrt_1 in H0. lra.
+  - exfalso. apply H. rewrite <- sqrt_1. apply sqrt_lt_1_alt. lra.
+Qed.
+Lemma antipodal_close a b : unitq4 a -> unitq4 b -> qdot (ql a) (ql b) <= -1/2 -> jumpq a (negq b) = false.
+Proof.
+  intros Ha Hb H. destruct (jumpq a (negq b)) eqn:J; [|reflexivity]. exfalso.
+  apply jumpq_iff in J. rewrite dist2_unit in J by (try apply unitq4_neg; assumption).
+  destruct b as [[[b0 b1] b2] b3]. destruct a as [[[a0 a1] a2] a3]. unfold negq, ql in *. revert J H. unfold_q. intros. lra.
+Qed.
+
+(* every interpolant is a unit quaternion on the geodesic of its two neighbours *)
+Lemma interpq_unit a b k n : unitq4 a -> unitq4 b -> unitq4 (interpq a b k n).
+Proof.
+  destruct a as [[[a0 a1] a2] a3], b as [[[b0 b1] b2] b3]. unfold unitq4, interpq. intros Ha Hb.
+  rewrite slerp_is_slerpM. destruct (slerpM_unit thr0 thr0_lt_1 a0 a1 a2 a3 b0 b1 b2 b3 Ha Hb (INR k / INR n)) as [L U].
+  exact U.
+Qed.
+Lemma interpq_geodesic a b k n : unitq4 a -> unitq4 b -> Rabs (qdot (ql a) (ql b)) <= thr0 ->
+  qdot (ql a) (ql (interpq a b k n)) = cos (acos (Rabs (qdot (ql a) (ql b))) * (INR k / INR n)).
+Proof.
+  destruct a as [[[a0 a1] a2] a3], b as [[[b0 b1] b2] b3]. unfold unitq4, interpq, ql. intros Ha Hb HD.
+  rewrite slerp_is_slerpM.
+  destruct (slerpM_speed thr0 thr0_lt_1 a0 a1 a2 a3 b0 b1 b2 b3 Ha Hb (INR k / INR n) HD) as [S1 _].
+  rewrite <- S1. unfold lq. unfold_q. reflexivity.
+Qed.
+
+Definition slerp_nanR := slerp_nan negq jumpq interpq.
+Definition remove_jumpsR := remove_jumps negq jumpq.
+
+Example lists_nonvacuous :
+  get_nan_intervals [false; true; false; true; true; true; false; false; true; true] = [(1, 1); (3, 5); (8, 9)]%nat /\
+  get_nan_intervals [false; false; false] = [] /\
+  maxrun [false; true; true; false] 1 2.
+Proof.
+  split; [reflexivity|]. split; [reflexivity|]. unfold maxrun. repeat split; try lia.
+  - intros i Hi. assert (i = 1 \/ i = 2)%nat as [-> | ->] by lia; reflexivity.
+  - intros j Hj. injection Hj as ->. reflexivity.
+Qed.
